@@ -163,10 +163,22 @@ for set_type in (set, frozenset):
       unflatten_fn=lambda values, _, set_type=set_type: set_type(values),
       path_elements_fn=lambda x: tuple(SetElement() for _ in x))
 
+def _unflatten_bytes(values, unused_metadata):
+  try:
+    return values[0].encode('latin-1')
+  except UnicodeEncodeError:
+    # Documents written by earlier versions used 'raw_unicode_escape', which
+    # can produce code points above 255.
+    return values[0].encode('raw_unicode_escape')
+
+
+# bytes <-> str with one code point per byte.  ('raw_unicode_escape' is not
+# lossless: it decodes byte sequences that look like \uXXXX escapes, so
+# b'\\u0041' would load back as b'A'.)
 register_node_traverser(
     bytes,
-    flatten_fn=lambda x: ((x.decode('raw_unicode_escape'),), None),
-    unflatten_fn=lambda values, _: values[0].encode('raw_unicode_escape'),
+    flatten_fn=lambda x: ((x.decode('latin-1'),), None),
+    unflatten_fn=_unflatten_bytes,
     path_elements_fn=lambda x: (IdentityElement(),),
 )
 
